@@ -167,3 +167,35 @@ def Consumer.site (k : Consumer) : String :=
 def allConsumers : List Consumer := [.extend, .mapFunc, .dflt, .converterMethod, .structMethod]
 
 end Gv.Signature
+
+namespace Gv.Signature
+open Gv.Str
+
+/-- one package-level object seen by `goverter:extend PKG:PATTERN` -/
+structure Cand where
+  name : S
+  /-- the pattern matches the whole name (an oracle answer: Go regexp, leftmost match = whole string) -/
+  fullMatch : Bool
+  obj : Obj
+  deriving Repr, Inhabited
+
+inductive SelErr
+  | notFound            -- a literal name that does not exist in the package
+  | parse (e : PErr)    -- a literal name whose object is not a usable conversion function
+  | noMatch             -- a pattern without any usable match
+  deriving Repr, DecidableEq, Inhabited
+
+def usable (o : Opts) (c : Cand) : Bool := match parse o c.obj with | .ok _ => true | .error _ => false
+
+/-- `pkgload.GetMatching`: a literal name selects exactly that function (or fails with its reason); a pattern selects
+every fully matching object that parses as a conversion function, in the order of the package scope (sorted names) -/
+def selectExtend (literal : Bool) (lit : S) (o : Opts) (cands : List Cand) : Except SelErr (List S) :=
+  if literal then
+    match cands.find? (fun c => c.name == lit) with
+    | none => .error .notFound
+    | some c => (match parse o c.obj with | .ok _ => .ok [c.name] | .error e => .error (.parse e))
+  else
+    let ms := cands.filter (fun c => c.fullMatch && usable o c)
+    if ms.isEmpty then .error .noMatch else .ok (ms.map (·.name))
+
+end Gv.Signature
